@@ -56,7 +56,7 @@ TECHNIQUE = "runtime monitoring: three-valued-logic reference evaluator + record
 INTS = [None, 0, 1, 2, 5, -3]
 # binary values (a scalar like any other: one placeholder, one bound value)
 BLOBS = [None, b"", b"a", b"ab", b"ab", b"\x00\xff", b"a'b", b"abc"]
-STRS = [None, "", "a", "ab", "A", "a%", "a_b", "x'y", "'; DROP TABLE t; --", '"q"', "abc", "1 OR 1=1", "%",
+STRS = [None, "", "a", "ab", "A", "a%", "a_b", "x'y", "c:\\tmp\\a", "c:tmpa", "\\_", "\\x", "c:\\tmp\\a", "\\", "c:\\tmp\\b", "'; DROP TABLE t; --", '"q"', "abc", "1 OR 1=1", "%",
         "IS NULL", "is not null", "IN", "LIKE", "=", "NULL", "?", "%s"]
 HOSTILE = {"x'y", "'; DROP TABLE t; --", '"q"', "1 OR 1=1", "IS NULL", "is not null", "IN", "LIKE", "=", "NULL", "?",
            "%s"}
@@ -259,12 +259,16 @@ def gen_cond(rng, depth=0):
     elif op.upper() in ('IS NULL', 'IS NOT NULL'):
         val = None
     elif op.upper() in ('LIKE', 'NOT LIKE'):
-        val = rng.choice(["a%", "%b", "_", "%", "a_b", "x'y", "A%", "", "%'%", "a\\%",
+        val = rng.choice(["a%", "%b", "_", "%", "a_b", "x'y", "A%", "", "%'%", "a\\%", "c:\\t%", "%\\%", "c:\\tmp\\a", "\\_",
                           "a", "A", "AB", "Ab", "ABC", "abc", "X'Y", '"Q"'])
         if val == "a\\%":
             val = "a%"
+        if rng.random() < 0.25:
+            # (a backslash is an ordinary character of a pattern)
+            val = rng.choice(["c:\\t%", "%\\%", "c:\\tmp\\a", "\\_", "\\%", "%\\a", "c:\\tmp\\_"])
     else:
-        val = rng.choice(nn)
+        # (an ordering comparison with NULL is a comparison like any other: one placeholder, one bound value, no row)
+        val = rng.choice(nn) if rng.random() < 0.93 else None
     return ('f', col, op, val)
 
 
